@@ -161,6 +161,10 @@ def run(ctx: Ctx) -> Result:
     res.traces_validated += len(cases) - len(bad)
     if cases:
         res.samples = [{"coq": cases[0][0][:1500], "impl_obs": cases[0][1]}]
+    # the death clause, on the Redis client: messages taken by a worker that dies stay marked until maintenance runs after
+    # their execution timeout, then they are deliverable again (RedisBroker.maintenance; sequential histories)
+    from . import _redis
+    _redis.run_seq(ctx, res, "c03r", {"C01"}, "death", 120, 2500, ctx.rng("death"))
     seen, uniq = set(), []
     for f in res.failures:
         if f.kind not in seen:
